@@ -113,6 +113,12 @@ def base_runs(prop, tier, which):
                         ("constructed", "witness:division"),
                         f"real SolutionTracks constructor on every forward binary forest with <= {n} nodes that "
                         f"carries no ids (shape decided by solver forks, symbolic times)"))
+    if "from_tracks" in which:
+        m = 3 if tier == "quick" else 4
+        runs.append(Run(f"from_tracks:N={m}", step.from_tracks_harness, dict(N=m, action="none"), step_replay.replay,
+                        ("recomputed", "ids_trusted", "edited"),
+                        f"SolutionTracks.from_tracks on Tracks over every forest with <= {m} nodes, ids present on all "
+                        f"nodes (any consistent labelling) or missing on one node; then one UserDeleteEdge"))
     if "query" in which:
         runs.append(Run(f"query:N={n}", step.query_harness, dict(N=n, action="none"), step_replay.replay,
                         ("neighbors", "has_track_at_time", "new_node_ids"),
